@@ -22,9 +22,81 @@ TOL = 1.0e-5
 MODEL = []  # (driver line, implementation coremap, setting) of the whole-list cases
 LAST = {}  # expected partition / eps of the most recent whole-list case (for replay files)
 
+# ---- source tie (DS.Props.SrcConstraints, translate/src_constraints.py): which theorems speak about the code of which property ----
+# theorems about the code both properties rely on (site-symmetry operations, snapping, lookup of the equivalent site, partition loop)
+TIE_SHARED = {"findInvariants_inner_eq", "findInvariants_eq", "findEquivalent_grid", "eqIndex_grid", "eqIndex_eq", "snapSite_shape",
+              "snapSite_exact", "raw_refines", "generatorSiteInit_eq", "inner_step", "inner_fold", "outer_step", "outer_fold",
+              "findConstraints_eq", "pospars_ok", "Upars_ok", "translate_items", "translate_all", "pruneFormulaDictionary_eq", "facts_eq",
+              "snapDelta_eq", "toVec_image", "expandAsymmetricUnit_eq", "index_std"}
+TIE_C05 = {"firstIdx_eq", "findPos_step", "findPos_fold", "findPosParameters_eq", "term_step0", "term_step1", "term_step2", "terms_step",
+           "terms_fold", "const_step0", "const_step1", "const_step2", "const_fold", "positionFormula_eq", "positionFormulas_pat_eq",
+           "positionFormulas_eq", "signedRatStr_eq", "signedRatStr_parses", "eps_pos", "gap_iff"}
+TIE_C06 = {"uName_eq", "findU_step", "findU_fold", "findUParameters_eq", "body1_eq", "body2_fold", "findeqUij_eq", "stored_tensor_eq",
+           "uterm_0", "uterm_1", "uterm_2", "uterm_4", "uterm_5", "uterm_8", "uterms_step", "uterms_fold", "UFormula_eq", "UFormulas_pat_eq",
+           "UFormulas_sub_eq", "idx2U_0", "idx2U_1", "idx2U_2", "idx2U_4", "idx2U_5", "idx2U_8", "dictFromKeys_std", "upd11", "upd22",
+           "upd33", "upd12", "upd13", "upd23"}
+# theorems that mention the code of both properties (the whole `GeneratorSite.__init__`): they follow the other broken theorems
+TIE_WEAK = {"generatorSiteInit_eq", "generatorSite_grid", "genOK_grid", "findConstraints_grid", "findConstraints_tables", "demoOK",
+            "demo_find", "demo_lookup"}
+TIE_SHARED |= TIE_WEAK | {"isIdOp_iff", "isIdOp_one", "isIdOp_inv", "invariants_exact", "result_ne_nil", "result_class_head",
+                          "adopted_eq_red", "uncast_cast", "partRel_congr", "stable_self", "coremap_eq_partRel", "partAux_eq_partRel"}
+
+
+def tie_scope(tie_ok, tie_info, mine, other):
+    """restrict a broken tie of the shared module to the theorems about the code THIS property speaks of: theorems that broke only
+    in the other property's part (e.g. `_findUParameters` seen from C05) are that check's business"""
+    if tie_ok:
+        return tie_ok, tie_info
+    broken = set(tie_info.get("broken_theorems") or [])
+    if not broken or len(tie_info.get("errors") or []) >= 20 or tie_info.get("translator", {}).get("error"):
+        return False, tie_info  # the generated file itself does not elaborate, or the error list is truncated: no scoping
+    rel = broken & (mine | TIE_SHARED)
+    unknown = broken - (TIE_SHARED | TIE_C05 | TIE_C06)
+    rel |= unknown
+    if not rel or (rel <= TIE_WEAK and broken & other):
+        tie_info["broken_elsewhere"] = sorted(broken)
+        return True, tie_info
+    tie_info["broken_theorems"] = sorted(rel)
+    return False, tie_info
+
+
+def source_tie_constraints(ck, mine, other):
+    """`ck.source_tie` for the group "constraints" (and "sym", whose helpers it calls); repeated when another check running at the
+    same time (other tree, same lean/DS/Gen) has overwritten a generated file between translation and build"""
+    import sys
+
+    sys.path.insert(0, common.VERIF)
+    from translate import pysrc
+    ok, info = False, {}
+    for attempt in range(3):
+        before = (ck.coverage["obligations"], ck.coverage["discharged"])
+        ok, info = ck.source_tie("DS.Props.SrcConstraints", groups=("sym", "constraints"))
+        try:
+            pysrc.REPO = common.REPO
+            same = True
+            for g in ("sym", "constraints"):
+                plug = pysrc.plugins()[g]
+                want = plug.translate({})
+                have = open(os.path.join(common.LEAN, "DS", "Gen", plug.OUTFILE), encoding="utf-8").read()
+                same = same and want == have
+        except Exception:  # noqa: BLE001  (unreadable source: source_tie has already recorded the broken tie)
+            break
+        if same:
+            break
+        ck.notes.append("lean/DS/Gen/Src{Sym,Constraints}.lean was overwritten by a concurrent run; source tie repeated")
+        if attempt < 2:
+            ck.coverage["obligations"], ck.coverage["discharged"] = before
+    return tie_scope(ok, info, mine, other)
+
+
+TIE_WHAT = ("symmetryutilities.py _findInvariants / GeneratorSite.__init__ / _findPosParameters / _findUParameters / _findeqUij / "
+            "positionFormula / UFormula / eqIndex / signedRatStr / ExpandAsymmetricUnit.__init__ / pruneFormulaDictionary / "
+            "SymmetryConstraints._findConstraints / positionFormulas / UFormulas")
+
 
 def gen_cases(ck, sgs, allstrata):
-    nmax = 6 if ck.tier == "quick" else 10 ** 6
+    # `ck.widen`: the source tie is broken, search harder (more strata per setting)
+    nmax = (12 if getattr(ck, "widen", False) else 6) if ck.tier == "quick" else 10 ** 6
     for sg in sgs:
         st = allstrata.get(sg.number)
         if not st:
@@ -196,6 +268,49 @@ def compare_formula(out, expect):
     return None
 
 
+def offset_case(ck, sg, st, SymmetryConstraints):
+    """The same listing constrained first with the tabulated origin and then with a shifted space-group origin
+    (`sgoffset`): the second call must give the orbit partition of the listing under the shifted group (computed here by
+    brute force in exact arithmetic), whatever the first call left behind.  Returns (problem or None, positions, offset)."""
+    k = min(len(st), ck.rng.choice([1, 2]))
+    chosen = ck.rng.sample(range(len(st)), k)
+    pts = []
+    for c in chosen:
+        x0 = [strata.frac(p) for p in st[c]["xyz"]]
+        opos, _ = oracle_classes(sg, x0, (Fraction(0),) * 3)
+        pts += opos[:12]
+    if len(pts) > 20:
+        pts = pts[:20]
+    off = ck.rng.choice([(Fraction(1, 2), Fraction(0), Fraction(1, 4)), (Fraction(1, 8),) * 3, (Fraction(0), Fraction(1, 4), Fraction(0)),
+                         (Fraction(1, 3), Fraction(2, 3), Fraction(0))])
+    pos = [[float(v) for v in p] for p in pts]
+    SymmetryConstraints(sg, pos)
+    scs = SymmetryConstraints(sg, pos, sgoffset=[float(v) for v in off])
+    ops = [sc.exact_op(o) for o in sg.symop_list]
+
+    def same_orbit(p, q):
+        for R, t in ops:
+            img = [sum(R[a][b] * (p[b] + off[b]) for b in range(3)) + t[a] - off[a] for a in range(3)]
+            if all((img[a] - q[a]) % 1 == 0 for a in range(3)):
+                return True
+        return False
+
+    classes = []
+    for i, p in enumerate(pts):
+        for cl in classes:
+            if same_orbit(pts[cl[0]], p):
+                cl.append(i)
+                break
+        else:
+            classes.append([i])
+    want = sorted(sorted(c) for c in classes)
+    got = sorted(sorted(v) for v in scs.coremap.values())
+    if got != want:
+        return ("with sgoffset=%r (after a call with the tabulated origin on the same listing) the listing is partitioned into %r, "
+                "its orbits under the shifted group are %r" % ([float(v) for v in off], got, want)), pos, [str(v) for v in off]
+    return None, pos, [str(v) for v in off]
+
+
 def constraints_case(ck, sg, st, SymmetryConstraints):
     """Union of orbits listed in shuffled, shifted, slightly noisy form -> orbit partition."""
     k = min(len(st), ck.rng.choice([1, 2, 3, 4]))
@@ -268,10 +383,20 @@ def constraints_case(ck, sg, st, SymmetryConstraints):
         if sc.pdist(got_p, pos[i]) > TOLc:
             return "poseqns[%d] = %r at pospars gives %r, position is %r (eps=%r)" % (i, fm, [float(g) for g in got_p], pos[i], eps), pos
     # custom parameter symbols: the translated formulas must denote the same positions
-    prob = custom_symbols_check(scs, pos, TOLc)
+    prob = custom_symbols_check(scs, pos, TOLc) or moved_positions_check(scs, pos, TOLc)
     if prob:
         return prob + " (eps=%r)" % (eps,), pos
     return None, pos
+
+
+def moved_positions_check(scs, pos, tol):
+    """`SymmetryConstraints.positions` are the listed positions put exactly onto the orbit of their generator: every listed
+    position stays where it is up to the tolerance (no jump to another member of the orbit or to another cell)"""
+    for i, (p, q) in enumerate(zip(scs.positions, pos)):
+        d = max(abs(float(a) - float(b)) for a, b in zip(p, q))
+        if d > 2 * tol:
+            return "positions[%d] was moved from %r to %r by the constraint search" % (i, list(map(float, q)), [float(a) for a in p])
+    return None
 
 
 def custom_symbols_check(scs, pos, tol):
@@ -350,6 +475,9 @@ def run(ck):
 
     rep = tables.main(os.path.join(common.LEAN, "DS", "Gen"), os.path.join(common.LEAN, "DS", "Gen", "tables_report.json"))
     translated = {s["number"] for s in rep["settings"]}
+    # the models of the parameter / formula / partition code ARE the current source (translate/src_constraints.py)
+    tie_ok, tie_info = source_tie_constraints(ck, TIE_C05, TIE_C06)
+    ck.widen = not tie_ok
     ok, info = ck.lean_obligations("DS.Props.C05")
     ok_p, info_p = ck.lean_obligations("DS.Props.C05Partition")
     if not ok_p:
@@ -404,8 +532,8 @@ def run(ck):
         st = allstrata.get(sg.number)
         if not st:
             continue
-        reps = 1 if ck.tier == "quick" else 5
-        if ck.tier == "quick" and len(sg.symop_list) > 48 and ck.rng.random() < 0.5:
+        reps = (2 if ck.widen else 1) if ck.tier == "quick" else 5
+        if ck.tier == "quick" and not ck.widen and len(sg.symop_list) > 48 and ck.rng.random() < 0.5:
             continue
         for _ in range(reps):
             ncon += 1
@@ -417,6 +545,21 @@ def run(ck):
                 ck.fail("constraints:%s" % sg.number, "SymmetryConstraints(%s #%s): %s" % (sg.short_name, sg.number, prob),
                         {"kind": "input", "setting": sg.number, "positions": pos, "detail": prob, "stream": "constraints",
                          "expected_coremap": LAST.get("expected"), "eps": LAST.get("eps")})
+    # the same listing with the tabulated and then with a shifted space-group origin (small groups: exact brute-force partition)
+    noff = 0
+    for sg in sgs.SpaceGroupList:
+        st = allstrata.get(sg.number)
+        if not st or len(sg.symop_list) > 16 or (ck.tier == "quick" and ck.rng.random() < 0.5):
+            continue
+        noff += 1
+        try:
+            prob, pos, off = offset_case(ck, sg, st, SymmetryConstraints)
+        except Exception as e:  # noqa: BLE001
+            prob, pos, off = "raised %r" % (e,), None, None
+        if prob:
+            ck.fail("constraints-offset:%s" % sg.number, "SymmetryConstraints(%s #%s): %s" % (sg.short_name, sg.number, prob),
+                    {"kind": "input", "setting": sg.number, "positions": pos, "sgoffset": off, "detail": prob, "stream": "constraints-offset"})
+    ck.coverage["evaluations"] += noff
     # model of the orbit partition vs the implementation's coremap
     mlines = [m for m in MODEL if m[2] in translated]
     try:
@@ -438,7 +581,7 @@ def run(ck):
     ndir = 0
     for sg in sgs.SpaceGroupList:
         st = allstrata.get(sg.number)
-        if not st or (ck.tier == "quick" and ck.rng.random() < 0.7):
+        if not st or (ck.tier == "quick" and not ck.widen and ck.rng.random() < 0.7):
             continue
         try:
             prob, pos = directed_symbols_case(ck, sg, st, SymmetryConstraints)
@@ -460,7 +603,11 @@ def run(ck):
     ck.coverage["samples"] = [{"driver": lines[i], "model": outs[i][:200] if outs else None} for i in (0, len(lines) // 2) if lines]
     ck.assumptions += ["SVD null space and its rationalisation are certificate-checked per generated site, not proved as algorithms",
                        "formula constants are printed with 6 significant digits: evaluation is compared at the position tolerance 1e-5"]
-    ck.coverage["trusted_base"] += ["translate/tables.py", "harness/strata.py (generator only)", "formula-string parser in harness/symcommon.py"]
+    ck.coverage["trusted_base"] += ["translate/tables.py", "harness/strata.py (generator only)", "formula-string parser in harness/symcommon.py",
+                                    "translate/src_constraints.py + lean/DS/Model/ConReal.lean (reading of the numpy/Python primitives of the constraint code)"]
+    ck.assumptions += ["source tie DS.Props.SrcConstraints: exact arithmetic over an ordered field (floating point stays with the correspondence); "
+                       "string formatting of the formula pieces, the %+g fallback of signedRatStr and isconstantFormula are recorded as text"]
+    ck.tie_verdict(tie_ok, tie_info, TIE_WHAT)
     if not ok and not ck.violations:
         ck.fail("lean-build", "Lean obligations of C05 no longer check: %r" % info["failed_modules"],
                 {"kind": "proof-obligation", "theorem": info["failed_modules"], "errors": info["errors"]}, no_failing_input=True)
@@ -469,6 +616,13 @@ def run(ck):
 def replay(path):
     common.use_repo()
     r = json.load(open(path))
+    if r.get("kind") in ("source-tie", "proof-obligation") and "setting" not in r:
+        # regenerate the transliteration from the tree under examination and re-check the theorems of this property
+        ck = common.Check("C05", "quick", 0)
+        ok, info = source_tie_constraints(ck, TIE_C05, TIE_C06)
+        unt = {k: v["untranslatable"] for k, v in info.get("translator", {}).items() if isinstance(v, dict) and v.get("untranslatable")}
+        print("source tie DS.Props.SrcConstraints:", "holds" if ok else "broken: theorems %r, not translatable %r" % (info.get("broken_theorems"), unt))
+        return 0 if ok else 1
     import random
 
     import diffpy.structure.spacegroups as sgs
@@ -480,6 +634,26 @@ def replay(path):
         rng = random.Random(1)
         tier = "quick"
 
+    if r.get("stream") == "constraints-offset":
+        off = [Fraction(v) for v in r["sgoffset"]]
+        SymmetryConstraints(sg, r["positions"])
+        scs = SymmetryConstraints(sg, r["positions"], sgoffset=[float(v) for v in off])
+        ops = [sc.exact_op(o) for o in sg.symop_list]
+        pts = [[Fraction(v).limit_denominator(10 ** 9) for v in p] for p in r["positions"]]
+        classes = []
+        for i, p in enumerate(pts):
+            for cl in classes:
+                q0 = pts[cl[0]]
+                if any(all((sum(R[a][b] * (q0[b] + off[b]) for b in range(3)) + t[a] - off[a] - p[a]) % 1 == 0 for a in range(3)) for R, t in ops):
+                    cl.append(i)
+                    break
+            else:
+                classes.append([i])
+        want = sorted(sorted(c) for c in classes)
+        got = sorted(sorted(v) for v in scs.coremap.values())
+        print("coremap classes:", got)
+        print("orbits under the shifted group:", want)
+        return 0 if got == want else 1
     if r.get("stream") == "constraints":
         eps = r.get("eps")
         try:
@@ -492,8 +666,9 @@ def replay(path):
         print("expected orbit partition:", r.get("expected_coremap"))
         if r.get("expected_coremap") is not None and got != r["expected_coremap"]:
             return 1
-        prob = custom_symbols_check(sc_, r["positions"], TOL if eps is None else eps)
-        print("custom symbols:", prob)
+        prob = custom_symbols_check(sc_, r["positions"], TOL if eps is None else eps) or \
+            moved_positions_check(sc_, r["positions"], TOL if eps is None else eps)
+        print("custom symbols / positions:", prob)
         return 1 if prob else 0
     x = [Fraction(v) for v in r["xyz"]]
     x0 = [Fraction(v) for v in r["special_site"]]
